@@ -219,6 +219,8 @@ func runC08(c *kit.Ctx) {
 	c.StartRule("R5", "the three discoverers treat (overlaps, replaced) alike", 3)
 	discoverersDetachOverlaps(c)
 	establisherHandoff(c)
+	regionAttributesAreImmutable(c)
+	noResponseBufferRecycling(c)
 }
 
 // discoverersDetachOverlaps: shared by C08.R5 and C01.R2 (a replaced region must lose its connection,
